@@ -32,7 +32,7 @@ pub struct WeedOpts {
 #[derive(Clone, Debug, Serialize, Deserialize, PartialEq)]
 pub enum Observer {
     Align(AlignJ),
-    Distance { min_count: usize, allow_ambig: bool, threads: usize },
+    Distance { min_count: usize, #[serde(default)] pct: Option<u32>, allow_ambig: bool, threads: usize },
     Map { vcf: bool, ambig_mask: bool, repeat_mask: bool },
     Nk,
     Delete { names: Vec<String> },
@@ -42,7 +42,12 @@ pub enum Observer {
 /// align options with the frequency threshold as a count j (command line gets (j-1/2)/n)
 #[derive(Clone, Debug, Serialize, Deserialize, PartialEq)]
 pub struct AlignJ {
+    /// threshold as a count j (the command line gets (j-1/2)/n) unless `pct` is set
     pub min_count: usize,
+    /// a user-style decimal --min-freq pct/100 (0.9, 0.25, ..); the threshold is then the exact
+    /// ceil(pct*n/100), used only where the f64 product is unambiguous (see `pct_threshold`)
+    #[serde(default, skip_serializing_if = "Option::is_none")]
+    pub pct: Option<u32>,
     pub filter: SiteFilter,
     pub ambig_missing: bool,
     pub ambig_mask: bool,
@@ -61,7 +66,7 @@ pub enum Op {
     /// C06: `ska align` against the model predicate
     Align { file: String, a: AlignJ },
     /// C14: `ska distance` against the model definition
-    Distance { file: String, min_count: usize, allow_ambig: bool, threads: usize },
+    Distance { file: String, min_count: usize, #[serde(default)] pct: Option<u32>, allow_ambig: bool, threads: usize },
     /// C14: the same samples built in another order give the same distances
     DistancePermuted { file: String, perm_seed: u64 },
     /// C10 (b): observers on F and on a freshly re-saved F'
@@ -114,6 +119,47 @@ fn half_freq(j: usize, n: usize) -> String {
         "0".into()
     } else {
         format!("{}", (j as f64 - 0.5) / n as f64)
+    }
+}
+
+pub const PCTS: [u32; 17] = [5, 10, 20, 25, 30, 40, 50, 60, 65, 70, 75, 80, 85, 90, 95, 99, 100];
+/// For --min-freq = pct/100 written as a decimal: Some((cli string, exact ceil(pct*n/100))) when
+/// the product n*f computed in f64 (as the CLI computes it) is unambiguous - exactly the integer
+/// when pct*n/100 is one, clearly fractional otherwise - so that "ceil(min_freq x samples)" means
+/// the same thing in exact and in floating-point arithmetic.
+pub fn pct_threshold(pct: u32, n: usize) -> Option<(String, usize)> {
+    let cli = if pct == 100 { "1".to_string() } else { format!("0.{pct:02}") };
+    let cli = cli.trim_end_matches('0').to_string();
+    let cli = if cli == "0." { "0".to_string() } else { cli };
+    let f: f64 = cli.parse().ok()?;
+    let x = n as f64 * f;
+    let num = pct as usize * n;
+    if num % 100 == 0 {
+        if x == (num / 100) as f64 {
+            Some((cli, num / 100))
+        } else {
+            None
+        }
+    } else {
+        let exact = num as f64 / 100.0;
+        if (x - exact).abs() < 1e-9 {
+            Some((cli, num / 100 + 1))
+        } else {
+            None
+        }
+    }
+}
+/// (command-line string, threshold count) of an align/distance frequency setting
+fn freq_setting(min_count: usize, pct: Option<u32>, n: usize) -> Option<(String, usize)> {
+    match pct {
+        Some(p) => pct_threshold(p, n),
+        None => {
+            if min_count > n {
+                None
+            } else {
+                Some((half_freq(min_count, n), min_count))
+            }
+        }
     }
 }
 
@@ -206,7 +252,7 @@ impl<'a> Exec<'a> {
             a.push("--threads".into());
             a.push(threads.to_string());
         }
-        if list {
+        if list && !idx.iter().any(|i| self.c.samples[*i].name.contains(char::is_whitespace)) {
             let l: String = idx.iter().map(|i| format!("{}\t{}\n", self.c.samples[*i].name, self.c.samples[*i].file())).collect();
             let lname = format!("{out}.list");
             self.dir.write(&lname, l.as_bytes());
@@ -311,7 +357,7 @@ impl<'a> Exec<'a> {
             "align".to_string(),
             skf(file),
             "--min-freq".into(),
-            half_freq(a.min_count, n),
+            freq_setting(a.min_count, a.pct, n).map(|x| x.0).unwrap_or("0".into()),
             "--filter".into(),
             a.filter.cli().into(),
         ];
@@ -326,8 +372,8 @@ impl<'a> Exec<'a> {
         }
         v
     }
-    fn distance_args(file: &str, j: usize, n: usize, allow: bool, threads: usize) -> Vec<String> {
-        let mut v = vec!["distance".to_string(), skf(file), "--min-freq".into(), half_freq(j, n)];
+    fn distance_args(file: &str, j: usize, pct: Option<u32>, n: usize, allow: bool, threads: usize) -> Vec<String> {
+        let mut v = vec!["distance".to_string(), skf(file), "--min-freq".into(), freq_setting(j, pct, n).map(|x| x.0).unwrap_or("0".into())];
         if allow {
             v.push("--allow-ambiguous".into());
         }
@@ -578,12 +624,18 @@ impl<'a> Exec<'a> {
             }
             Op::Align { file, a } => {
                 let table = self.model(file)?.table.clone();
-                if a.min_count > table.n() || (a.no_gap_only && a.filter != SiteFilter::NoConst) {
+                let Some((_, thr)) = freq_setting(a.min_count, a.pct, table.n()) else {
+                    return Err(Stop::Invalid("frequency setting outside the documented domain".into()));
+                };
+                if a.no_gap_only && a.filter != SiteFilter::NoConst {
                     return Err(Stop::Invalid("align options outside the documented domain".into()));
+                }
+                if a.pct.is_some() {
+                    probe("align_with_decimal_min_freq");
                 }
                 let r = self.run(Self::align_args(file, a, table.n()))?;
                 let (names, cols) = Self::align_out(&r, "align")?;
-                let exp = table.align_columns(&FilterOpts { min_count: a.min_count, ambig_missing: a.ambig_missing, filter: a.filter, ambig_mask: a.ambig_mask, no_gap_only: a.no_gap_only });
+                let exp = table.align_columns(&FilterOpts { min_count: thr, ambig_missing: a.ambig_missing, filter: a.filter, ambig_mask: a.ambig_mask, no_gap_only: a.no_gap_only });
                 if names != table.names {
                     return viol("align:wrong-names", format!("{names:?} vs {:?}", table.names));
                 }
@@ -598,16 +650,20 @@ impl<'a> Exec<'a> {
                 if exp.len() < table.rows.len() && !exp.is_empty() {
                     probe(&format!("align_filter_{}_removed_some", a.filter.cli()));
                 }
-                if table.rows.values().any(|r| r.iter().filter(|b| **b != b'-').count() == a.min_count) {
+                if table.rows.values().any(|r| r.iter().filter(|b| **b != b'-').count() == thr) {
                     probe("align_threshold_equals_a_row_count");
                 }
             }
-            Op::Distance { file, min_count, allow_ambig, threads } => {
+            Op::Distance { file, min_count, pct, allow_ambig, threads } => {
                 let table = self.model(file)?.table.clone();
-                if *min_count > table.n() {
-                    return Err(Stop::Invalid("threshold above sample count".into()));
+                let Some((_, thr)) = freq_setting(*min_count, *pct, table.n()) else {
+                    return Err(Stop::Invalid("frequency setting outside the documented domain".into()));
+                };
+                let min_count = &thr;
+                if pct.is_some() {
+                    probe("distance_with_decimal_min_freq");
                 }
-                let r = self.run(Self::distance_args(file, *min_count, table.n(), *allow_ambig, *threads))?;
+                let r = self.run(Self::distance_args(file, *min_count, *pct, table.n(), *allow_ambig, *threads))?;
                 if !r.ok() {
                     return viol("distance:fails", format!("{}: {}", r.status_str(), r.stderr_tail()));
                 }
@@ -640,6 +696,9 @@ impl<'a> Exec<'a> {
                         }
                     }
                     probe("distance_checked_against_definition");
+                    if table.rows.len() > 16384 {
+                        probe("distance_on_table_with_more_than_16384_rows");
+                    }
                     if *min_count >= 2 && table.rows.values().any(|r| r.iter().filter(|b| **b != b'-').count() < *min_count) {
                         probe("distance_min_freq_dropped_rows");
                     }
@@ -651,14 +710,14 @@ impl<'a> Exec<'a> {
                     (m.table.clone(), m.sources.clone())
                 };
                 let Some(mut src) = sources else { return Err(Stop::Invalid("no sources".into())) };
-                let r1 = self.run(Self::distance_args(file, 0, table.n(), false, 1))?;
+                let r1 = self.run(Self::distance_args(file, 0, None, table.n(), false, 1))?;
                 Rng::new(*perm_seed).shuffle(&mut src);
                 let a = self.build_args(".perm", &src, table.k, !table.rc, false, 1);
                 let rb = self.run(a)?;
                 if !rb.ok() {
                     return Err(Stop::Invalid("permuted build refused".into()));
                 }
-                let r2 = self.run(Self::distance_args(".perm", 0, table.n(), false, 1))?;
+                let r2 = self.run(Self::distance_args(".perm", 0, None, table.n(), false, 1))?;
                 self.dir.remove(".perm.skf");
                 match (parse_distance(&r1.stdout), parse_distance(&r2.stdout)) {
                     (Ok(a), Ok(b)) if r1.ok() && r2.ok() => {
@@ -685,16 +744,16 @@ impl<'a> Exec<'a> {
                 for ob in observers {
                     let pair: (ProcOut, ProcOut) = match ob {
                         Observer::Align(a) => {
-                            if a.min_count > n {
+                            if freq_setting(a.min_count, a.pct, n).is_none() {
                                 continue;
                             }
                             (self.run(Self::align_args(file, a, n))?, self.run(Self::align_args(".canon", a, n))?)
                         }
-                        Observer::Distance { min_count, allow_ambig, threads } => {
-                            if *min_count > n {
+                        Observer::Distance { min_count, pct, allow_ambig, threads } => {
+                            if freq_setting(*min_count, *pct, n).is_none() {
                                 continue;
                             }
-                            (self.run(Self::distance_args(file, *min_count, n, *allow_ambig, *threads))?, self.run(Self::distance_args(".canon", *min_count, n, *allow_ambig, *threads))?)
+                            (self.run(Self::distance_args(file, *min_count, *pct, n, *allow_ambig, *threads))?, self.run(Self::distance_args(".canon", *min_count, *pct, n, *allow_ambig, *threads))?)
                         }
                         Observer::Map { vcf, ambig_mask, repeat_mask } => {
                             let mk = |f: &str| {
@@ -811,8 +870,10 @@ impl<'a> Exec<'a> {
 // ------------------------------------------------------------------ generation
 fn gen_alignj(rng: &mut Rng, n: usize) -> AlignJ {
     let filter = SiteFilter::ALL[rng.below(4)];
+    let pct = if rng.chance(35) { Some(*rng.pick(&PCTS)).filter(|p| pct_threshold(*p, n).is_some()) } else { None };
     AlignJ {
         min_count: rng.below(n + 1),
+        pct,
         filter,
         ambig_missing: rng.chance(40),
         ambig_mask: rng.chance(35),
@@ -844,7 +905,7 @@ fn gen_observers(rng: &mut Rng, n: usize, names: &[String], weeds: &[String], co
     (0..count)
         .map(|_| match rng.below(9) {
             0..=2 => Observer::Align(gen_alignj(rng, n)),
-            3 => Observer::Distance { min_count: rng.below(n + 1), allow_ambig: rng.chance(50), threads: rng.range(1, 3) },
+            3 => Observer::Distance { min_count: rng.below(n + 1), pct: if rng.chance(35) { Some(*rng.pick(&PCTS)).filter(|p| pct_threshold(*p, n).is_some()) } else { None }, allow_ambig: rng.chance(50), threads: rng.range(1, 3) },
             4 => Observer::Map { vcf: rng.chance(50), ambig_mask: rng.chance(30), repeat_mask: rng.chance(30) },
             5 => Observer::Nk,
             6 if n >= 2 => {
@@ -861,7 +922,10 @@ impl StoreWorkload {
     fn gen(&self, seed: u64, tier: Tier) -> StoreCase {
         let mut rng = Rng::new(seed);
         let focus = self.focus;
-        let k = pick_k(&mut rng);
+        // C10 "stale state" scenario (30% of C10 runs): a weed that counts only unambiguous bases,
+        // then operations that depend on per-k-mer counts, on data rich in ambiguity codes
+        let stale = focus == "C10" && rng.chance(30);
+        let k = if (stale && rng.chance(60)) || (matches!(focus, "C06" | "C10") && rng.chance(15)) { *rng.pick(&[5usize, 7, 7, 9]) } else { pick_k(&mut rng) };
         let ss = rng.chance(30);
         let max_n = match (focus, tier) {
             ("C06", Tier::Thorough) | ("C14", Tier::Thorough) => 12,
@@ -877,8 +941,49 @@ impl StoreWorkload {
             o.repeats = false;
             o.palindromes = false;
         }
+        if focus == "C14" && rng.chance(if tier == Tier::Quick { 2 } else { 4 }) {
+            // a large table (tens of thousands of variable rows): per-pair work is then big
+            // enough for any chunked / parallel accumulation to split it
+            let k = *rng.pick(&[21usize, 31, 33]);
+            let n = rng.range(2, 3);
+            let core_len = rng.range(3000, 6000);
+            let core = rng.dna(core_len);
+            let samples: Vec<Sample> = (0..n)
+                .map(|i| {
+                    let mut c = core.clone();
+                    for _ in 0..rng.range(0, 30) {
+                        let p = rng.below(c.len());
+                        c[p] = rng.base();
+                    }
+                    let own_len = rng.range(7000, 10000);
+                    Sample { name: format!("s{i}"), records: vec![("core".into(), c), ("own".into(), rng.dna(own_len))], wrap: 70 }
+                })
+                .collect();
+            let mut ops = vec![Op::Build { out: "b1".into(), samples: (0..n).collect(), k, single_strand: rng.chance(30), list: false, threads: 1 }];
+            for t in [1usize, 2, 4] {
+                ops.push(Op::Distance { file: "b1".into(), min_count: 0, pct: None, allow_ambig: rng.chance(50), threads: t });
+            }
+            if n == 3 {
+                ops.push(Op::Distance { file: "b1".into(), min_count: 2, pct: None, allow_ambig: false, threads: 3 });
+            }
+            return StoreCase { focus: focus.to_string(), samples, extra: BTreeMap::new(), ops, sim_seed: rng.next_u64() >> 1 };
+        }
         let fits64 = k >= 35 && matches!(focus, "C07" | "C10") && rng.chance(25);
-        let samples = if fits64 { gen_fits64_samples(&mut rng, n, k, "s") } else { gen_samples(&mut rng, n, k, &o, "s") };
+        let mut samples = if fits64 { gen_fits64_samples(&mut rng, n, k, "s") } else { gen_samples(&mut rng, n, k, &o, "s") };
+        if focus == "C08" && rng.chance(25) {
+            // unusual but legal sample names (they come from file names when building from
+            // positional arguments): a space, a dot, a name that is a prefix of another
+            let i = rng.below(n);
+            samples[i].name = match rng.below(3) {
+                0 => format!("s {i}"),
+                1 => format!("s{}.v2", (i + 1) % n),
+                _ => format!("s{}", (i + 1) % n * 10 + 1),
+            };
+            let nm: BTreeSet<&String> = samples.iter().map(|s| &s.name).collect();
+            if nm.len() != samples.len() {
+                samples[i].name = format!("s{i}");
+            }
+        }
         let mut extra = BTreeMap::new();
         let nweed = rng.range(1, 3);
         let mut weeds = vec![];
@@ -992,7 +1097,9 @@ impl StoreWorkload {
                         continue;
                     }
                     let sub = rng.proper_subset(names.len());
-                    let del: Vec<String> = sub.iter().map(|i| names[*i].clone()).collect();
+                    let mut del: Vec<String> = sub.iter().map(|i| names[*i].clone()).collect();
+                    // names in any order, not only the file's column order
+                    rng.shuffle(&mut del);
                     let out = if rng.chance(50) { Some(newname("d")) } else { None };
                     let target = out.clone().unwrap_or(cur.clone());
                     ops.push(Op::Delete { file: cur.clone(), names: del.clone(), via_file, out });
@@ -1019,6 +1126,55 @@ impl StoreWorkload {
                     }
                 }
             }
+            _ if stale => {
+                if files.len() > 1 {
+                    merge_all(&mut rng, &mut ops, &mut files, newname("m"));
+                }
+                let mut cur = files.keys().next_back().unwrap().clone();
+                let names = files[&cur].clone();
+                let nn = names.len();
+                let js: Vec<usize> = (1..=nn).filter(|j| exact_freq(*j, nn).is_some()).collect();
+                let filt = SiteFilter::ALL[rng.below(4)];
+                let o1 = WeedOpts { weed: if rng.chance(40) { Some(rng.pick(&weeds).clone()) } else { None }, reverse: false, min_count: *rng.pick(&js), ambig_missing: true, filter: filt, ambig_mask: false, no_gap_only: filt == SiteFilter::NoConst && rng.chance(30) };
+                let out = if rng.chance(40) { Some(newname("w")) } else { None };
+                if let Some(o2) = &out {
+                    files.insert(o2.clone(), names.clone());
+                    cur = o2.clone();
+                }
+                let src = files.keys().find(|f| out.as_ref() != Some(*f)).cloned().unwrap_or(cur.clone());
+                ops.push(Op::Weed { file: if out.is_some() { src } else { cur.clone() }, o: o1, out });
+                for _ in 0..rng.range(1, 3) {
+                    let names = files[&cur].clone();
+                    let nn = names.len();
+                    match rng.below(5) {
+                        0 | 1 => {
+                            let js: Vec<usize> = (1..=nn).filter(|j| exact_freq(*j, nn).is_some()).collect();
+                            let filt = if rng.chance(50) { SiteFilter::NoFilter } else { SiteFilter::ALL[rng.below(4)] };
+                            // high thresholds separate "present" from "unambiguous" counts
+                            let j = if rng.chance(60) { *js.last().unwrap() } else { *rng.pick(&js) };
+                            let o = WeedOpts { weed: None, reverse: false, min_count: j, ambig_missing: rng.chance(25), filter: filt, ambig_mask: rng.chance(20), no_gap_only: false };
+                            ops.push(Op::Weed { file: cur.clone(), o, out: None });
+                        }
+                        2 if nn >= 2 => {
+                            let sub = rng.proper_subset(nn);
+                            let mut del: Vec<String> = sub.iter().map(|i| names[*i].clone()).collect();
+                            rng.shuffle(&mut del);
+                            ops.push(Op::Delete { file: cur.clone(), names: del.clone(), via_file: rng.chance(30), out: None });
+                            files.insert(cur.clone(), names.into_iter().filter(|x| !del.contains(x)).collect());
+                        }
+                        3 => ops.push(Op::Resave { file: cur.clone() }),
+                        _ => {
+                            let obs = gen_observers(&mut rng, nn, &names, &weeds, 2);
+                            ops.push(Op::Canon { file: cur.clone(), observers: obs });
+                        }
+                    }
+                }
+                let names = files[&cur].clone();
+                let mut obs = gen_observers(&mut rng, names.len(), &names, &weeds, 3);
+                // align at the highest threshold: the point where stale counts matter most
+                obs.push(Observer::Align(AlignJ { min_count: names.len(), pct: None, filter: SiteFilter::NoFilter, ambig_missing: false, ambig_mask: false, no_gap_only: false }));
+                ops.push(Op::Canon { file: cur, observers: obs });
+            }
             _ => {
                 // C10 / C06 / C14: general histories
                 let hist_len = match focus {
@@ -1028,11 +1184,24 @@ impl StoreWorkload {
                 };
                 // swarm: a random subset of operation kinds is enabled per run
                 let enabled: Vec<u8> = (0..6u8).filter(|_| rng.chance(65)).collect();
+                // the file written last: histories mostly keep working on it, so that operations
+                // see what the previous ones stored
+                let mut last_written: Option<String> = None;
+                let mut after_ambig_weed = false;
                 for step in 0..hist_len {
                     let fl: Vec<String> = files.keys().cloned().collect();
-                    let f = rng.pick(&fl).clone();
+                    let f = match &last_written {
+                        Some(l) if rng.chance(65) => l.clone(),
+                        _ => rng.pick(&fl).clone(),
+                    };
                     let names = files[&f].clone();
-                    let kind = if enabled.is_empty() { rng.below(6) as u8 } else { *rng.pick(&enabled) };
+                    let mut kind = if enabled.is_empty() { rng.below(6) as u8 } else { *rng.pick(&enabled) };
+                    if after_ambig_weed && rng.chance(60) {
+                        // right after a weed that counted only unambiguous bases: operations that
+                        // depend on per-k-mer counts
+                        kind = *rng.pick(&[1u8, 3, 3, 0]);
+                    }
+                    after_ambig_weed = false;
                     match kind {
                         0 if files.len() >= 2 => {
                             // merge two files without common samples
@@ -1043,16 +1212,19 @@ impl StoreWorkload {
                                 rng.shuffle(&mut ins);
                                 let nm: Vec<String> = ins.iter().flat_map(|x| files[x].clone()).collect();
                                 ops.push(Op::Merge { out: out.clone(), inputs: ins });
-                                files.insert(out, nm);
+                                files.insert(out.clone(), nm);
+                                last_written = Some(out);
                             }
                         }
                         1 if names.len() >= 2 => {
                             let sub = rng.proper_subset(names.len());
-                            let del: Vec<String> = sub.iter().map(|i| names[*i].clone()).collect();
+                            let mut del: Vec<String> = sub.iter().map(|i| names[*i].clone()).collect();
+                            rng.shuffle(&mut del);
                             let out = if rng.chance(40) { Some(newname("d")) } else { None };
                             let target = out.clone().unwrap_or(f.clone());
                             ops.push(Op::Delete { file: f.clone(), names: del.clone(), via_file: rng.chance(30), out });
-                            files.insert(target, names.into_iter().filter(|x| !del.contains(x)).collect());
+                            files.insert(target.clone(), names.into_iter().filter(|x| !del.contains(x)).collect());
+                            last_written = Some(target);
                         }
                         2 | 3 => {
                             let filt = kind == 3 || rng.chance(50);
@@ -1061,6 +1233,8 @@ impl StoreWorkload {
                             if let Some(o2) = &out {
                                 files.insert(o2.clone(), names.clone());
                             }
+                            after_ambig_weed = o.ambig_missing;
+                            last_written = Some(out.clone().unwrap_or(f.clone()));
                             ops.push(Op::Weed { file: f.clone(), o, out });
                         }
                         4 => ops.push(Op::Resave { file: f.clone() }),
@@ -1073,7 +1247,10 @@ impl StoreWorkload {
                     }
                 }
                 let fl: Vec<String> = files.keys().cloned().collect();
-                let f = rng.pick(&fl).clone();
+                let f = match &last_written {
+                    Some(l) if rng.chance(70) => l.clone(),
+                    _ => rng.pick(&fl).clone(),
+                };
                 let names = files[&f].clone();
                 let nn = names.len();
                 match focus {
@@ -1097,7 +1274,8 @@ impl StoreWorkload {
                             if nn < 2 {
                                 continue;
                             }
-                            ops.push(Op::Distance { file: fpick.clone(), min_count: if rng.chance(60) { rng.below(nn + 1) } else { 0 }, allow_ambig: rng.chance(40), threads: rng.range(1, 8) });
+                            let pct = if rng.chance(35) { Some(*rng.pick(&PCTS)).filter(|p| pct_threshold(*p, nn).is_some()) } else { None };
+                            ops.push(Op::Distance { file: fpick.clone(), min_count: if rng.chance(60) { rng.below(nn + 1) } else { 0 }, pct, allow_ambig: rng.chance(40), threads: rng.range(1, 8) });
                             if rng.chance(25) {
                                 ops.push(Op::DistancePermuted { file: fpick, perm_seed: rng.next_u64() });
                             }
